@@ -33,6 +33,7 @@ class Program:
         self.statics = {}    # name -> Fn
         self.allocs = {}     # allocN -> header text (static name, fn shim, ...) / bytes
         self.closures = {}   # '{closure@file:l:c: l:c}' -> Fn
+        self.char_consts = []
 
 
 def find_close(s, i, open_ch='(', close_ch=')'):
@@ -366,6 +367,7 @@ def norm_impl(name):
 
 def parse_program(text, verbose_text=None):
     prog = Program()
+    prog.char_consts = re.findall(r"const '(\\?.)'", text)
     lines = text.split('\n')
     vlines = verbose_text.split('\n') if verbose_text is not None else None
     if vlines is not None and len(vlines) != len(lines):
